@@ -455,6 +455,15 @@ func getTypeConverter(typ reflect.Type) (TypeConverter, error) {
 	return converter, nil
 }
 
+// checkIntRange returns a type error if the script integer v does not fit in
+// the Go integer type named typ, whose range is [min, max].
+func checkIntRange(v, min, max int64, typ string) error {
+	if v < min || v > max {
+		return errz.TypeErrorf("type error: int value %d is out of range for %s", v, typ)
+	}
+	return nil
+}
+
 // BoolConverter converts between bool and *Bool.
 type BoolConverter struct{}
 
@@ -478,6 +487,9 @@ func (c *ByteConverter) To(obj Object) (interface{}, error) {
 	case *Byte:
 		return obj.value, nil
 	case *Int:
+		if err := checkIntRange(obj.value, 0, math.MaxUint8, "byte"); err != nil {
+			return nil, err
+		}
 		return byte(obj.value), nil
 	case *Float:
 		return byte(obj.value), nil
@@ -540,6 +552,9 @@ func (c *Int8Converter) To(obj Object) (interface{}, error) {
 	case *Byte:
 		return int8(obj.value), nil
 	case *Int:
+		if err := checkIntRange(obj.value, math.MinInt8, math.MaxInt8, "int8"); err != nil {
+			return nil, err
+		}
 		return int8(obj.value), nil
 	case *Float:
 		return int8(obj.value), nil
@@ -560,6 +575,9 @@ func (c *Int16Converter) To(obj Object) (interface{}, error) {
 	case *Byte:
 		return int16(obj.value), nil
 	case *Int:
+		if err := checkIntRange(obj.value, math.MinInt16, math.MaxInt16, "int16"); err != nil {
+			return nil, err
+		}
 		return int16(obj.value), nil
 	case *Float:
 		return int16(obj.value), nil
@@ -580,6 +598,9 @@ func (c *Int32Converter) To(obj Object) (interface{}, error) {
 	case *Byte:
 		return int32(obj.value), nil
 	case *Int:
+		if err := checkIntRange(obj.value, math.MinInt32, math.MaxInt32, "int32"); err != nil {
+			return nil, err
+		}
 		return int32(obj.value), nil
 	case *Float:
 		return int32(obj.value), nil
@@ -620,6 +641,9 @@ func (c *UintConverter) To(obj Object) (interface{}, error) {
 	case *Byte:
 		return uint(obj.value), nil
 	case *Int:
+		if err := checkIntRange(obj.value, 0, math.MaxInt64, "uint"); err != nil {
+			return nil, err
+		}
 		return uint(obj.value), nil
 	case *Float:
 		return uint(obj.value), nil
@@ -644,6 +668,9 @@ func (c *Uint8Converter) To(obj Object) (interface{}, error) {
 	case *Byte:
 		return uint8(obj.value), nil
 	case *Int:
+		if err := checkIntRange(obj.value, 0, math.MaxUint8, "uint8"); err != nil {
+			return nil, err
+		}
 		return uint8(obj.value), nil
 	case *Float:
 		return uint8(obj.value), nil
@@ -664,6 +691,9 @@ func (c *Uint16Converter) To(obj Object) (interface{}, error) {
 	case *Byte:
 		return uint16(obj.value), nil
 	case *Int:
+		if err := checkIntRange(obj.value, 0, math.MaxUint16, "uint16"); err != nil {
+			return nil, err
+		}
 		return uint16(obj.value), nil
 	case *Float:
 		return uint16(obj.value), nil
@@ -684,6 +714,9 @@ func (c *Uint32Converter) To(obj Object) (interface{}, error) {
 	case *Byte:
 		return uint32(obj.value), nil
 	case *Int:
+		if err := checkIntRange(obj.value, 0, math.MaxUint32, "uint32"); err != nil {
+			return nil, err
+		}
 		return uint32(obj.value), nil
 	case *Float:
 		return uint32(obj.value), nil
@@ -704,6 +737,9 @@ func (c *Uint64Converter) To(obj Object) (interface{}, error) {
 	case *Byte:
 		return uint64(obj.value), nil
 	case *Int:
+		if err := checkIntRange(obj.value, 0, math.MaxInt64, "uint64"); err != nil {
+			return nil, err
+		}
 		return uint64(obj.value), nil
 	case *Float:
 		return uint64(obj.value), nil
